@@ -483,12 +483,33 @@ func (q *Cut) Run(c *Ctx) (string, int) {
 	if len(q.From) == 0 && len(q.FromEdges) == 0 {
 		push(q.Fn.Blocks[0], 0, start, nil)
 	}
+	// a path that starts inside the function has already taken the branches that dominate its start
+	dominating := func(e psEnv, b *ssa.BasicBlock) {
+		for blk := b; blk != nil && blk.Idom() != nil; blk = blk.Idom() {
+			d := blk.Idom()
+			i := ifOf(d)
+			if i == nil || d.Succs[0] == d.Succs[1] {
+				continue
+			}
+			for s := 0; s < 2; s++ {
+				succ := d.Succs[s]
+				if len(succ.Preds) == 1 && succ.Dominates(b) {
+					// the definition of the condition dominates the test, the test's edge dominates the start: whatever
+					// iteration we are in, the last evaluation of the test before reaching the start took this edge
+					learn(e, i.Cond, s == 0)
+				}
+			}
+		}
+	}
 	for _, f := range q.From {
-		push(f.Block(), instrIndex(f)+1, start.clone(), nil)
+		e := start.clone()
+		dominating(e, f.Block())
+		push(f.Block(), instrIndex(f)+1, e, nil)
 	}
 	for _, fe := range q.FromEdges {
 		t := fe.B.Succs[fe.Succ]
 		e := start.clone()
+		dominating(e, fe.B)
 		if i := ifOf(fe.B); i != nil {
 			learn(e, i.Cond, fe.Succ == 0)
 		}
